@@ -118,6 +118,8 @@ pub(crate) struct Circuit {
     failure_count: usize,
     success_count: usize,
     total_count: usize,
+    /// Calls recorded since the count-based window was last emptied (not capped by the window size)
+    recorded_count: usize,
     slow_call_count: usize,
     // Half-open trial tracking: calls admitted in the current half-open episode, and the
     // trials of that episode that were dropped before recording an outcome
@@ -155,6 +157,7 @@ impl Circuit {
             failure_count: 0,
             success_count: 0,
             total_count: 0,
+            recorded_count: 0,
             slow_call_count: 0,
             half_open_admitted: 0,
             half_open_episode: 0,
@@ -243,6 +246,7 @@ impl Circuit {
             self.success_count += 1;
         }
         self.total_count += 1;
+        self.recorded_count = self.recorded_count.saturating_add(1);
         if is_slow {
             self.slow_call_count += 1;
         }
@@ -544,6 +548,7 @@ impl Circuit {
         self.success_count = 0;
         self.failure_count = 0;
         self.total_count = 0;
+        self.recorded_count = 0;
         self.slow_call_count = 0;
         self.count_window.clear();
         self.call_records.clear();
@@ -604,6 +609,7 @@ impl Circuit {
         self.success_count = 0;
         self.failure_count = 0;
         self.total_count = 0;
+        self.recorded_count = 0;
         self.slow_call_count = 0;
         self.count_window.clear();
         self.call_records.clear();
@@ -631,8 +637,14 @@ impl Circuit {
                 }
             };
 
-        // Don't evaluate until minimum calls threshold is met
-        if total_count < config.minimum_number_of_calls {
+        // Don't evaluate until minimum calls threshold is met. The count-based window holds at
+        // most sliding_window_size calls, so a larger minimum is compared with the number of calls
+        // recorded since the window was last emptied.
+        let recorded = match config.sliding_window_type {
+            SlidingWindowType::CountBased => self.recorded_count,
+            SlidingWindowType::TimeBased => total_count,
+        };
+        if recorded < config.minimum_number_of_calls {
             return;
         }
 
